@@ -393,21 +393,31 @@ func c20BTMix(r *Run, cfg *Stream) {
 	}
 	const tmp = "projects/p/instances/i/tables/tmp"
 	big := cfg.Intn(2) == 1
+	// eight runs per batch: so many bytes that the engine has moved rows from its write buffer
+	// (4 MiB) into table files - iterators over those behave differently when the table is
+	// cleared under them
+	huge := (r.Index >= 16 && r.Index < 24) || (r.Tier == "thorough" && r.Index%1000 < 2)
 	mkTmp := func() {
 		w.CreateTable("projects/p/instances/i", "tmp", map[string]*btapb.GcRule{"f1": nil, "f2": nil})
-		n := 6
+		n, val := 6, "v"
 		if big {
 			n = 60
 		}
-		var es []entryIn
-		for i := 0; i < n; i++ {
-			var muts mutList
-			for c := 0; c < 25; c++ {
-				muts = append(muts, setCell("f1", fmt.Sprintf("q%02d", c), 1000, "v"))
-			}
-			es = append(es, entryIn{Key: fmt.Sprintf("t%03d", i), Muts: muts})
+		if huge {
+			n, val = 100, strings.Repeat("x", 3<<10)
+			r.Probe("c20.table_larger_than_write_buffer")
 		}
-		w.MutateRows(tmp, es)
+		for from := 0; from < n; from += 20 {
+			var es []entryIn
+			for i := from; i < from+20 && i < n; i++ {
+				var muts mutList
+				for c := 0; c < 25; c++ {
+					muts = append(muts, setCell("f1", fmt.Sprintf("q%02d", c), 1000, val))
+				}
+				es = append(es, entryIn{Key: fmt.Sprintf("t%03d", i), Muts: muts})
+			}
+			w.MutateRows(tmp, es)
+		}
 	}
 	mkTmp()
 	s := r.NewSched()
@@ -416,6 +426,10 @@ func c20BTMix(r *Run, cfg *Stream) {
 	roles := []int{cfg.Intn(6), cfg.Intn(6), cfg.Intn(6)}
 	if r.Index < 12 {
 		roles = [][]int{{0, 1, 2}, {3, 4, 1}, {0, 3, 5}, {2, 4, 5}}[r.Index%4]
+	}
+	if huge {
+		roles = [][]int{{1, 5, 2}, {1, 5, 3}}[r.Index%2]
+		nOps = 2
 	}
 	sendFail := cfg.Intn(4) == 3
 	if sendFail {
